@@ -157,6 +157,33 @@ pub fn nesting_inputs() -> Vec<String> {
     v
 }
 
+/// operands of the arithmetic sweep: one column per SQL type of table m, and literals of every kind
+pub const ARITH_OPERANDS: [&str; 15] = ["i", "b", "u", "q", "f", "d", "s", "o", "0", "1", "- 1", "0.0", "2.5", "NULL", "'a'"];
+pub const ARITH_OPS: [&str; 8] = ["+", "-", "*", "/", "%", "=", "<", ">="];
+pub const ARITH_ROWS: u64 = 4;
+
+/// `SELECT id, a op b FROM m WHERE id = r` and `SELECT id FROM m WHERE id = r AND (a op b) ...` for every
+/// ordered operand pair, operator and row of m (row 0 holds a zero in every numeric column)
+pub fn arith_inputs() -> Vec<String> {
+    let mut v = vec![];
+    for r in 0..ARITH_ROWS {
+        for a in ARITH_OPERANDS {
+            for op in ARITH_OPS {
+                for b in ARITH_OPERANDS {
+                    v.push(format!("SELECT id , {a} {op} {b} FROM m WHERE id = {r}"));
+                    if matches!(op, "=" | "<" | ">=") {
+                        v.push(format!("SELECT id FROM m WHERE id = {r} AND {a} {op} {b}"));
+                    } else {
+                        v.push(format!("SELECT id FROM m WHERE id = {r} AND ( {a} {op} {b} ) >= 0"));
+                    }
+                }
+            }
+            v.push(format!("SELECT id , - {a} FROM m WHERE id = {r}"));
+        }
+    }
+    v
+}
+
 pub fn group_size(group: &str, thorough: bool) -> u64 {
     let s = SYMBOLS.len() as u64;
     let t = TOKENS.len() as u64;
@@ -172,6 +199,7 @@ pub fn group_size(group: &str, thorough: bool) -> u64 {
         }
         "mutations" => mutation_inputs().len() as u64,
         "nesting" => nesting_inputs().len() as u64,
+        "typed-arith" => arith_inputs().len() as u64,
         "typed" => typed_statements().len() as u64 * 3,
         "typed-session" => typed_statements().len() as u64 * 3,
         _ => 0,
@@ -242,6 +270,7 @@ pub fn input_of(group: &str, idx: u64) -> String {
         "tokens" => nth_string(&TOKENS, idx, " "),
         "mutations" => mutation_inputs().get(idx as usize).cloned().unwrap_or_default(),
         "nesting" => nesting_inputs().get(idx as usize).cloned().unwrap_or_default(),
+        "typed-arith" => arith_inputs().get(idx as usize).cloned().unwrap_or_default(),
         _ => String::new(),
     }
 }
@@ -265,6 +294,12 @@ fn schema_setup(db: &mut Db, variant: u64) -> Result<(), String> {
     let body = rows.iter().map(|r| format!("({})", r.iter().map(crate::model::lit).collect::<Vec<_>>().join(", "))).collect::<Vec<_>>().join(", ");
     run(&format!("INSERT INTO t VALUES {body}"))?;
     run("INSERT INTO u VALUES (1, 100), (3, 300)")?;
+    // one column per SQL type; row 0 holds a zero in every numeric column, row 3 NULLs
+    run("CREATE TABLE m (id INT, i INT, b BIGINT, u UINT, q BIGUINT, f FLOAT, d DOUBLE, s TEXT, o BOOLEAN)")?;
+    run("INSERT INTO m VALUES (0, 0, 0, 0, 0, 0.0, 0.0, '', FALSE)")?;
+    run("INSERT INTO m VALUES (1, 1, 1, 1, 1, 1.5, 1.5, 'a', TRUE)")?;
+    run("INSERT INTO m VALUES (2, -3, -3, 7, 7, -2.25, -2.25, 'b', TRUE)")?;
+    run("INSERT INTO m VALUES (3, NULL, NULL, NULL, NULL, NULL, NULL, NULL, NULL)")?;
     Ok(())
 }
 
